@@ -400,6 +400,25 @@ def run_format(signed, bits, frac, acc, floats=None):
         if bad:
             acc.violation(dict(kind="array_inverse", bits=bits), dict(fmt),
                           "array fix->float->fix: %r" % (bad[:3],))
+        # float32 input arrays (each element is the double it converts to)
+        a32 = np.array([x for x in fl if abs(x) < 3e38], dtype=np.float32)
+        a32 = a32[np.isfinite(a32)]
+        if len(a32) > 4000:
+            a32 = np.concatenate([a32[::29], a32[:60], a32[-60:]])
+        acc.evaluations += len(a32)
+        try:
+            with warnings.catch_warnings():
+                warnings.simplefilter("ignore")
+                r32 = aconv(a32)
+            want32 = [reference(float(v), signed, bits, frac) for v in a32]
+            bad32 = [(float(v), int(r), w_) for v, r, w_ in
+                     zip(a32, r32, want32) if int(r) != w_]
+        except Exception as e:
+            bad32 = [repr(e)]
+        if bad32:
+            acc.violation(dict(kind="array_float32", bits=bits), dict(fmt),
+                          "float32 input array: (value, converted, exact) = "
+                          "%r" % (bad32[:3],))
         # fix -> float on the extreme words of both integer types of this
         # width (the sign comes from the array's dtype alone)
         for dt_signed in (False, True):
